@@ -60,6 +60,21 @@ theorem C08_never_garbled (fs : Fs) (hwf : WF fs) (c : Cmd) (k : Nat) (r : RPath
   rw [h r]
   exact not_garbled_applySteps _ fs (wf_not_garbled fs hwf) r
 
+/-- **The reader succeeds** (full): with the repaired writers, from a well-formed state, after a kill at any
+point of any command (tag moves included) every record file in the database directory is complete and of its kind
+— a leftover temporary file is not a record — so the listing of a fresh reader is defined for every flavor. -/
+theorem C08_reader_total (fs : Fs) (hwf : WF fs) (c : Cmd) (k : Nat) (f : Id) :
+    recordsComplete (crashAt { atomic := true } fs c k) = true ∧
+    (listing (crashAt { atomic := true } fs c k) f).isSome = true := by
+  have h := recordsComplete_of_mainGood _ (mainGood_crash fs hwf c k)
+  exact ⟨h, by simp [listing, h]⟩
+
+/-- The pinned writers do not have this property either: in the truncation witness the reader meets a record it
+cannot read in full. -/
+theorem C08_reader_total_pinned_witness :
+    let fs : Fs := { dirs := [0], files := [(.main (.vfile 0 0), .complete (.ver [⟨0, false⟩, ⟨1, false⟩]))] }
+    listing (crashAt { atomic := false } fs (.declare 0 0 0 none true) 1) 0 = none := by decide
+
 /-- Non-vacuity of the hypotheses: the two-flavor state of the truncation witness is well-formed and the forced
 redeclaration is not a re-tag (it has 19 effects); the state of the tag-move witness is well-formed too, and there
 `retag` is true. -/
